@@ -314,7 +314,7 @@ func (s *stream) Rebalance() {
 
 	if !s.balancing {
 		s.balancing = true
-		s.Close(false)
+		s.close(false)
 	}
 
 	s.eventHandler.AfterRebalanceStart()
@@ -431,7 +431,19 @@ func (s *stream) wait() {
 	}
 }
 
+// Close stops the stream. A rebalance whose reopen is still pending is cancelled; one whose
+// reopen is already running is waited for, so that what it opens is closed again instead of
+// being left running (or crashing on the maps replaced under it) after Close has returned.
 func (s *stream) Close(closeWithCancel bool) {
+	if s.rebalanceTimer == nil || !s.rebalanceTimer.Stop() {
+		s.rebalanceLock.Lock()
+		defer s.rebalanceLock.Unlock()
+	}
+
+	s.close(closeWithCancel)
+}
+
+func (s *stream) close(closeWithCancel bool) {
 	s.closeWithCancel = closeWithCancel
 
 	if s.observers == nil {
